@@ -180,6 +180,10 @@ def catalogue() -> List[Tmpl]:
     vi("dotted_missing", "proto p\nmessage A {\n    message B {}\n}\nmessage C {\n    A.X k = 1\n}\n", False, 6)
     vi("import_ok", 'proto p\nimport "lib.bitproto"\nmessage M {\n    lib.Pt p = 1\n    lib.Row r = 2\n    lib.Kind k = 3\n}\n', True, None, {"lib.bitproto": lib})
     vi("import_dup", 'proto p\nimport "lib.bitproto"\nimport other "lib.bitproto"\n', False, 3, {"lib.bitproto": lib})
+    # a message is not visible inside its own body: self-reference is an undefined type (never an endless recursion)
+    vi("self_reference_field", "proto p\nmessage Node {\n    Node next = 1\n}\n", False, 3)
+    vi("self_reference_array", "proto p\nmessage Tree {\n    Tree[2] children = 1\n}\n", False, 3)
+    vi("self_reference_from_nested", "proto p\nmessage Outer {\n    message Inner {\n        Outer back = 1\n    }\n    Inner i = 1\n}\n", False, 4)
     # a dotted name that walks THROUGH something that is not a scope (constant, alias, enum member, field) names nothing
     vi("dotted_through_const_type", "proto p\nconst N = 4\nmessage M {\n    N.x f = 1\n}\n", False, 4)
     vi("dotted_through_const_cap", "proto p\nconst N = 4\nmessage M {\n    byte[N.size] f = 1\n}\n", False, 4)
@@ -335,11 +339,26 @@ def _viol(t: Tmpl, tm: Any, vals: Dict[str, int], what: str, kind: str, sc: Scra
             "confirmed": True, "info": {"kind": kind, "key": f"{kind}:{t.name}", "exc": what.split(" ")[0]}}
 
 
+def _dispatch(job: Any) -> Dict[str, Any]:
+    kind, x = job
+    if kind == "t":
+        return work(x)
+    from . import c20
+
+    r = c20.work_lexcite(x)
+    r.setdefault("value_independent", 1)
+    r.setdefault("messages", 1)
+    return r
+
+
 def main() -> int:
     ev = Evidence(PROP, "other")
     rep = Report(PROP)
     cat = catalogue()
-    results = pmap(work, cat)
+    from . import c20  # the native lexer-error citation part (file and line of errors raised while tokenising, several imports)
+
+    lex_jobs = [(k, b, w) for k, b in c20.LEX_ERRORS for w in ("root", "first", "second")]
+    results = pmap(_dispatch, [("t", t) for t in cat] + [("lex", j) for j in lex_jobs])
     tot = aggregate(PROP, ev, rep, results, counters=("messages", "paths", "queries", "unsat", "sat", "unknown", "witness", "witness_agree", "obligations", "value_independent"))
     ev.cov = {
         "explanation": "bounded symbolic execution (all paths) of the real lexer+parser+AST validators on token templates whose numeric holes are z3 integers >= 0; per path: accepted <=> documented-constraint predicate (unsat for all values), only ParserError escapes and it cites the offending file/line; one witness per path re-parsed by the real compiler under normal builtins",
